@@ -73,7 +73,7 @@ func TestVerif_C42_Sched(t *testing.T) {
 	behaviours := []string{"call-close", "call-hold-call", "late-call", "hold-open-silent", "two-calls"}
 	nClients := venum.QT(2, 3)
 	connRe := regexp.MustCompile(`#(\d+)`)
-	venum.Explore(t, venum.Cfg{Name: "listener-schedules", PreemptBound: venum.QT(2, 3), Shardable: true, CheckDeterminism: true}, func(x *venum.X) {
+	venum.Explore(t, venum.Cfg{Name: "listener-schedules", PreemptBound: venum.QT(2, 2), Shardable: true, CheckDeterminism: true}, func(x *venum.X) {
 		transport := x.Pick("transport", "unix", "tcp")
 		idle := []time.Duration{0, 100 * time.Second, 30 * time.Second}[x.Choose(3, "idle")]
 		beh := make([]string, nClients)
